@@ -396,11 +396,14 @@ func (self *Analyzer) letStatement(node pAst.LetStatement, isGlobal bool) ast.An
 				node.Ident.Span(),
 			)
 
-			self.hint(
-				fmt.Sprintf("Previous definition of global '%s'", node.Ident.Ident()),
-				nil,
-				prev.Span,
-			)
+			// a builtin has no position which a hint could point to
+			if prev.Origin != BuiltinVariableOriginKind {
+				self.hint(
+					fmt.Sprintf("Previous definition of global '%s'", node.Ident.Ident()),
+					nil,
+					prev.Span,
+				)
+			}
 		} else {
 			if !strings.HasPrefix(node.Ident.Ident(), "_") && !prev.Used {
 				label := ""
